@@ -277,6 +277,38 @@ func runC13(cx *Ctx, r *Report) {
 			r.violate("dequeue", key, "", "the "+q.what+" is no longer iterated by "+q.mod+"."+q.entry+": due entries are never processed")
 			continue
 		}
+		// a read-only scan of the queue (a counter, a getter: a function that reaches no
+		// mutation and takes no callback) processes nothing; the processing iteration is
+		// the one the rule is about, and there must be one
+		var proc []hev
+		for _, it := range iters {
+			f := it.ev.Fr.Fn
+			pure := true
+			for k := range cx.transPrimKinds(f) {
+				if isMutatingKind(k) {
+					pure = false
+				}
+			}
+			for i := 0; i < f.Signature.Params().Len(); i++ {
+				if _, isFn := f.Signature.Params().At(i).Type().Underlying().(*types.Signature); isFn {
+					pure = false
+				}
+			}
+			for i := 0; i < f.Signature.Results().Len(); i++ {
+				// a helper that hands the iterator out: its caller does the processing
+				if strings.Contains(f.Signature.Results().At(i).Type().String(), "Iterator") {
+					pure = false
+				}
+			}
+			if !pure || f.Parent() != nil || it.ev.Fr.Parent == nil {
+				proc = append(proc, it)
+			}
+		}
+		if len(proc) == 0 {
+			r.violate("dequeue", key, "", "the "+q.what+" is only scanned by read-only helpers in "+q.mod+"."+q.entry+": due entries are never processed")
+			continue
+		}
+		iters = proc
 		for _, it := range iters {
 			pos := it.ev.Pos(cx)
 			var pArgs []string
@@ -1103,6 +1135,20 @@ func (cx *Ctx) lostUpdates(cw *c13Walk) []lostUpdate {
 		}
 		return false
 	}
+	// the call instance a term denotes: its source position and, where known, the
+	// activation it was evaluated in (an inlined helper is evaluated once per invocation)
+	isAncestorCallT := func(t *Term, ev *Event) bool {
+		if t.fr == nil {
+			return isAncestorCall(t.Site, ev)
+		}
+		want := framePath(t.fr)
+		for f := ev.Fr; f != nil; f = f.Parent {
+			if f.Call != nil && f.Call.Pos() == t.Site && framePath(f.Parent) == want {
+				return true
+			}
+		}
+		return false
+	}
 	for _, S := range sets {
 		if len(S.ev.Prefix) != 1 || len(S.ev.Args) < 2 {
 			continue
@@ -1120,7 +1166,7 @@ func (cx *Ctx) lostUpdates(cw *c13Walk) []lostUpdate {
 					return
 				}
 				if t.Op == "call" && t.Site.IsValid() {
-					if isAncestorCall(t.Site, Sp.ev) {
+					if isAncestorCallT(t, Sp.ev) {
 						return // result of the call that performed the intervening write
 					}
 					gs = append(gs, t)
@@ -1132,7 +1178,7 @@ func (cx *Ctx) lostUpdates(cw *c13Walk) []lostUpdate {
 			visit(S.ev.Args[1])
 			for _, g := range gs {
 				for _, R := range reads {
-					if !hasPrefix(R.ev, P) || !isAncestorCall(g.Site, R.ev) {
+					if !hasPrefix(R.ev, P) || !isAncestorCallT(g, R.ev) {
 						continue
 					}
 					if orderedBefore(R.ev, Sp.ev) {
